@@ -110,6 +110,10 @@ def run(res, tier, seed):
         res.add_mc(r, what)
         if not r["ok"]:
             res.violation(what=mod + " invariant violated", detail=r["error"])
+    t = vlib.run_tlapm("WindowProof")
+    res.add_lemma(t, "Proved", "TLAPS: the support window clamped to the source is non-empty, inside the source and contains the centre pixel, for ALL naturals, every grid, every support >= 1/2")
+    if t["result"] != "Proved":
+        raise vlib.ToolError("TLAPS proof WindowProof: %s" % t["result"])
     a = vlib.run_apalache("GeomLemmas", "WindowInside")
     res.add_lemma(a, "NoError", "support window clamped to the source is non-empty and contains the centre pixel, all sizes < 2^16")
     if a["result"] != "NoError":
